@@ -32,7 +32,7 @@ def cases(tier, seed, prop):
     L = 3 if tier == 'quick' else 4
     out += [{'k': 'h', 's': s, 'g': 'hstr'} for s in gens.random_strings(rnd, dom_html.FR, 600 if tier == 'quick' else 8000, 1, 8)]
     out += [{'k': 'c', 's': s, 'g': 'cstr'} for s in gens.random_strings(rnd, dom_css.FR, 600 if tier == 'quick' else 8000, 1, 8)]
-    for s in ['a b  c', ' x ', '', 'one', 'a\tb\n c ', '  ']: out.append({'k': 't', 's': s, 'g': 'tokens'})
+    for s in ['a b  c', ' x ', '', 'one', 'a\tb\n c ', '  ', 'btn btn-x\n\tis-on\r\n js', 'a\xa0b', '\na\n']: out.append({'k': 't', 's': s, 'g': 'tokens'})
     return out
 
 
@@ -43,10 +43,11 @@ def gen_rule_nosemi(rnd):
     buf += sel + rnd.choice(['', ' ']); r['brace'] = len(buf); buf += '{' + rnd.choice(['', ' ', '\n  '])
     k = rnd.randint(1, 3)
     for i in range(k):
-        name = rnd.choice(['color', 'margin', 'a', 'font']); val = rnd.choice(['red', '1px 2px', '10px', 'a, b', 'url(x;y)'])
+        name = rnd.choice(['color', 'margin', 'a', 'font']); val, toks = rnd.choice([('red', ['red']), ('1px 2px', ['1px', '2px']), ('10px', ['10px']), ('a, b', ['a', 'b']), ('url(x;y)', ['url(x;y)']),
+                                                                                      ('t(c(1px + 2px), 0) s(2)', ['t(c(1px + 2px), 0)', 's(2)'])])
         d = {'kind': 'decl', 'name': name, 'value': val, 'start': len(buf)}
         buf += name; d['nend'] = len(buf); d['colon'] = len(buf); buf += ':' + rnd.choice(['', ' '])
-        d['vstart'] = len(buf); buf += val; d['vend'] = len(buf)
+        d['vstart'] = len(buf); buf += val; d['vend'] = len(buf); d['tokens'] = dom_css.tok_ranges(val, toks, d['vstart'])
         if i < k - 1:
             d['semi'] = len(buf); buf += ';'; d['end'] = len(buf); buf += rnd.choice(['', ' ', '\n  '])
         else:
@@ -142,6 +143,7 @@ def oracle_html(case, pos, tag, nxt, prv):
 
 # ------------------------------------------------------------------------------------------------- CSS
 def decl_tokens(s, d):
+    if d.get('tokens') is not None: return [tuple(t) for t in d['tokens']]       # recorded by the generator
     from emmet.css_matcher import split_value
     return [(r[0] + d['vstart'], r[1] + d['vstart']) for r in split_value(d['value'])]
 
@@ -230,7 +232,16 @@ def run(case, prop):
     s = case['s']; viol = []; tags = {'gen:' + case['g']: 1}
     out = ''
     if case['k'] == 't':
-        return ' '.join('%d-%d' % r for r in token_list(s, 7)), [], tags
+        got = [tuple(r) for r in token_list(s, 7)]
+        # class tokens = the maximal runs of non-blank characters (space, tab, no-break space, line breaks separate), offset by 7
+        want = []; i = 0
+        while i < len(s):
+            if s[i] in ' \t\xa0\n\r': i += 1; continue
+            j = i
+            while j < len(s) and s[j] not in ' \t\xa0\n\r': j += 1
+            want.append((7 + i, 7 + j)); i = j
+        if got != want: viol.append('class-tokens| token_list(%r, 7) = %r, the blank-separated tokens are %r' % (s, got, want))
+        return ' '.join('%d-%d' % r for r in got), viol, tags
     for pos in range(-1, len(s) + 2):
         try:
             if case['k'] == 'h':
